@@ -234,7 +234,7 @@ INFO = {
                 "'A or B' with 1-3 blanks, descriptions with commas/quotes/empty/non-ASCII) and must read back through "
                 "PrecisDerivedProperty::from_str and, in files with header, LF/CRLF and with/without final newline, through "
                 "CsvLineParser in file order; 16 kinds of damage (field deleted/emptied, hex digit corrupted, sign or blank "
-                "inserted, beyond U+10FFFF, broken or unknown property, 'or' without operands, wrong separator, empty line, long multi-byte text in the code point or property column) "
+                "inserted, beyond U+10FFFF, broken or unknown property, 'or' without operands, 'or' glued to a property name (all 49 pairs x 3 gluings), wrong separator, empty line, long multi-byte text in the code point or property column) "
                 "must give Err with the 1-based line number; reversed ranges / lower-case hex only for 'no panic'; a 70,000-row "
                 "file (line numbers beyond 65,535) with rows of up to 290 KB; code point fields of 9-16 hex digits; the "
                 "registry snapshot itself row by row against the own parser. Descriptions read through the line parser are compared up to their line terminator (kept or stripped); for a line that is not UTF-8 an error with no or with the right line number is accepted. blanks or tabs around the code point or property field: rejected, or accepted with exactly the spelled values (blanks inside a field, signs and prefixes are malformed); Non-trivial = distinct lines / files.",
